@@ -48,24 +48,6 @@ def classify(f, classes):
     return None
 
 
-def near_tie_ctrl(case, trace):
-    """round-off can flip a comparison of the control skeleton when a value sits on a threshold"""
-    tol = case["tol"]
-    prev = 1e10
-    for (err, tpd, _) in trace:
-        for m in (1.0, 10.0, 100.0, 1000.0):
-            if abs(err - tol * m) <= 1e-9 * tol * m:
-                return True
-        if abs(tpd + 0.01) <= 1e-12 or abs(tpd + 0.1) <= 1e-12 or abs(tpd - prev - 1e-5) <= 1e-12:
-            return True
-        prev = tpd
-    return False
-
-
-def parse_trace(line):
-    return line
-
-
 def run(ctx):
     pts, classes = known_entries()
     extra = ["--known", ";".join(sorted(pts))] if pts else []
